@@ -103,8 +103,11 @@ def enum_graphs(seed):
                 fails.append({"model": {"sources": sources}, "detail": f"{label}: sources {sources}: collapsing 's' gives {got}; breadth-first reference {want}"})
     keys = ("k1", "k2", "k3")
 
+    frnd = random.Random(seed + 77)
+
     def sec(n, inherit, owns, with_class):
-        d = {k: f"{n}.{k}" for k in owns}
+        # a nearer section may set a key to an empty (falsy) value: it still shadows what is inherited
+        d = {k: (f"{n}.{k}" if frnd.random() > .3 else "") for k in owns}
         if inherit:
             d["inherit"] = list(inherit)
         if with_class:
